@@ -216,4 +216,12 @@ example : Spec.checkProgram ⟨"v:#1", "v:#1", "v:#2"⟩ = some "deterministic" 
 example : Spec.checkProgram ⟨"v:#1", "v:#2", "v:#1"⟩ = some "precedence_as_declared" := by decide
 example : Spec.checkProgram ⟨"v:#1", "v:#1", "v:#1"⟩ = none := by decide
 
+/-- the clauses stated against the reference's answer: a recursion error although the reference nests only 40 frames, a
+    `use()` closure whose calls influence each other, a raising `array - array` are rejected; a recursion error at real
+    depth 300 is not. -/
+example : Spec.checkAgainstReference "catchloop5" "e:stack" (some "v:#1") 40 = some "depth_error_only_beyond_limit" := by decide
+example : Spec.checkAgainstReference "scope3" "v:[#2]" (some "v:[#1]") 10 = some "scoping_use_copies_per_call" := by decide
+example : Spec.checkAgainstReference "arrsub9" "e:optype" (some "v:[]") 5 = some "operator_typing_array_minus_total" := by decide
+example : Spec.checkAgainstReference "recursion400" "e:stack" (some "e:stack") 300 = none := by decide
+
 end Icinga.C15.Proofs
